@@ -223,4 +223,3 @@ func (e *Engine) loadRefused() *Violation {
 	}
 	return e.checkAll(e.S, "state-after-locked-call")
 }
-func (e *Engine) opSweep(c *cursor) *Violation { e.St.Skipped++; return nil }
